@@ -403,6 +403,87 @@ theorem check_stops_iff_executing (s : St) (k : Nat) (hinv : Inv s) (hidle : s.c
     exact resumes_when_idle s _ hinv hidle hn
       (by intro j _ x; unfold ctr; rw [counters_chkRun]; exact hz x) hmem hend
 
+/-! ## the monitor's enumeration only produces outcomes of real schedules -/
+
+/-- every state the enumerator `explore` returns is `runSteps s steps` for some schedule `steps`
+    made of the group's single-step actions and check steps, with no check left in flight. -/
+theorem explore_sound : ∀ (fuel : Nat) (s : St) (singles : List Step) (k : Nat) (s' : St),
+    s' ∈ explore fuel s singles k →
+    ∃ steps, s' = runSteps s steps ∧ s'.chk = .idle ∧ (∀ st ∈ steps, st = .chk ∨ st ∈ singles) := by
+  intro fuel
+  induction fuel with
+  | zero => intro s singles k s' h; simp [explore] at h
+  | succ fuel ih =>
+    intro s singles k s' h
+    simp only [explore, List.mem_append, List.mem_flatMap, List.mem_range] at h
+    rcases h with (h | h) | h
+    · split at h
+      · rename_i hc
+        simp only [List.mem_singleton] at h
+        subst h
+        simp only [Bool.and_eq_true, decide_eq_true_eq] at hc
+        exact ⟨[], rfl, hc.1.2, by simp⟩
+      · simp at h
+    · obtain ⟨i, _, hi⟩ := h
+      cases hs : singles[i]? with
+      | none => simp [hs] at hi
+      | some st =>
+        simp only [hs] at hi
+        obtain ⟨steps, h1, h2, h3⟩ := ih _ _ _ _ hi
+        refine ⟨st :: steps, by simpa [runSteps] using h1, h2, ?_⟩
+        have hst : st ∈ singles := List.mem_of_getElem? hs
+        have hsub : ∀ (l : List Step) (j : Nat) (x : Step), x ∈ removeAt l j → x ∈ l := by
+          intro l
+          induction l with
+          | nil => intro j x hx; simp [removeAt] at hx
+          | cons a r ihl =>
+            intro j x hx
+            cases j with
+            | zero => simp only [removeAt] at hx; simp [hx]
+            | succ j =>
+              simp only [removeAt, List.mem_cons] at hx
+              rcases hx with rfl | hx
+              · simp
+              · simp [ihl j x hx]
+        intro x hx
+        simp only [List.mem_cons] at hx
+        rcases hx with rfl | hx
+        · exact Or.inr hst
+        · rcases h3 x hx with h | h
+          · exact Or.inl h
+          · exact Or.inr (hsub _ _ _ h)
+    · split at h
+      · obtain ⟨steps, h1, h2, h3⟩ := ih _ _ _ _ h
+        exact ⟨.chk :: steps, by simpa [runSteps, step] using h1, h2, by
+          intro x hx; simp only [List.mem_cons] at hx
+          rcases hx with rfl | hx
+          · exact Or.inl rfl
+          · exact h3 x hx⟩
+      · split at h
+        · split at h
+          · exact ih _ _ _ _ h
+          · obtain ⟨steps, h1, h2, h3⟩ := ih _ _ _ _ h
+            exact ⟨.chk :: steps, by simpa [runSteps, step] using h1, h2, by
+              intro x hx; simp only [List.mem_cons] at hx
+              rcases hx with rfl | hx
+              · exact Or.inl rfl
+              · exact h3 x hx⟩
+        · simp at h
+
+/-- what the monitor accepts for a concurrent group is the outcome of some interleaving of the
+    atomic steps, so the schedule theorems above (`inv_step`, `no_resume_while_running`,
+    `resumes_when_idle`) apply to it. -/
+theorem groupOutcomes_sound (s : St) (acts : List Act) (s' : St) (h : s' ∈ groupOutcomes s acts) :
+    ∃ steps, s' = runSteps s steps ∧ s'.chk = .idle := by
+  simp only [groupOutcomes, List.mem_eraseDups] at h
+  obtain ⟨steps, h1, h2, _⟩ := explore_sound _ _ _ _ _ h
+  exact ⟨steps, h1, h2⟩
+
+theorem groupOutcomes_inv (s : St) (acts : List Act) (s' : St) (hinv : Inv s)
+    (h : s' ∈ groupOutcomes s acts) : Inv s' := by
+  obtain ⟨steps, rfl, _⟩ := groupOutcomes_sound s acts s' h
+  exact inv_runSteps_from hinv steps
+
 /-- non-vacuity: 2 latches, 2 workers; latch 1 locked twice and unlocked once is still executing,
     a check stops both workers; after the second unlock the next check resumes exactly two. -/
 example :
